@@ -818,6 +818,13 @@ func c20R4(c *Ctx) {
 			}
 		}
 		if matched == "" {
+			// a parameterised helper (e.g. base + "/" + kind + "/" + reference) is judged
+			// through the builders that instantiate it, provided nothing else can reach it
+			if users, internal := c20OnlyUsedBy(c, f, builders); internal && len(users) > 0 {
+				classOf[f] = "helper"
+				c.Exists(R4, fn+"|template", f.Pos(), true, got+"  =  helper, only instantiated by "+strings.Join(users, ", ")+" (evaluated there)")
+				continue
+			}
 			c.Violation(R4, fn+"|template", f.Pos(), "builds "+got+" which is none of the distribution-spec endpoint templates (a reference part outside its slot, an extra segment or query, or a wrong scheme/host)")
 			continue
 		}
@@ -888,6 +895,40 @@ func c20R4(c *Ctx) {
 	}
 	c.Check(R4, "callers|scheme-by-PlainHTTP", 0, okPlain, ifelse(okPlain, fmt.Sprintf("all %d builder calls pass the PlainHTTP option as the scheme flag", nCalls), whyPlain))
 	c.Check(R4, "callers|store-uses-own-endpoint", 0, okStore, ifelse(okStore, "methods of the blob store use only /blobs/ endpoints, methods of the manifest store only /manifests/ endpoints", whyStore))
+}
+
+// c20OnlyUsedBy: every use of f in its package is a static call from one of
+// the given functions (f is never stored, passed or called from elsewhere).
+func c20OnlyUsedBy(c *Ctx, f *ssa.Function, among []*ssa.Function) (users []string, ok bool) {
+	in := map[*ssa.Function]bool{}
+	for _, g := range among {
+		in[g] = true
+	}
+	seen := map[string]bool{}
+	for _, g := range c.P.FuncsOfPkg(fnPkgPath(f)) {
+		bad := false
+		AllInstrs(g, func(instr ssa.Instruction) {
+			for _, op := range instr.Operands(nil) {
+				if op == nil || *op != ssa.Value(f) {
+					continue
+				}
+				call, isCall := instr.(ssa.CallInstruction)
+				if isCall && call.Common().Value == ssa.Value(f) && in[g] && g != f {
+					if !seen[FnName(g)] {
+						seen[FnName(g)] = true
+						users = append(users, FnName(g))
+					}
+					continue
+				}
+				bad = true
+			}
+		})
+		if bad {
+			return nil, false
+		}
+	}
+	sort.Strings(users)
+	return users, true
 }
 
 // c20IsPlainHTTP: v is the PlainHTTP option, read directly or through an
